@@ -188,6 +188,9 @@ FloatLits == <<"0.0", "1.0", "0.1", "1.5", "100.0", "123456789.125", "0.30000000
                "9007199254740993.0", "0.1e1", "4.35", "2.675", "1e7", "16777217.0">>
 FloatSuffixes == <<"", "f64", "f32", "bf">>
 FloatSpecials == <<"INF", "NEG_INF", "NAN", "NEG_ZERO">>
+(* regex literal sources (written %/src/flags) and flag sets                *)
+RegexSrcs == <<"ab+c", "a\\nb", "\\d+\\s", "[a-z]+", "a b", "\\.", "a|b", "(a)(?:b)">>
+RegexFlags == <<"", "i", "m", "im", "x">>
 (* the minimum of each signed fixed-width type: a value of a literal-      *)
 (* expressible type that no literal writes directly (built as -max - 1)    *)
 FixedMins == <<"i8", "i16", "i32", "i64">>
@@ -201,6 +204,7 @@ IntV(base, pre, ds, sf, neg) == [k |-> "int", base |-> base, pre |-> pre, ds |->
 Flt(lit, sf, neg) == [k |-> "flt", lit |-> lit, sf |-> sf, neg |-> neg]
 FltSpecial(name, sf) == [k |-> "fsp", name |-> name, sf |-> sf]
 IntMin(sf) == [k |-> "imin", sf |-> sf]
+Rgx(src, fl) == [k |-> "rgx", lit |-> src, sf |-> fl]
 Lit(name) == [k |-> "lit", name |-> name]                  \* nil true false
 Coll(t, items) == [k |-> "coll", t |-> t, items |-> items] \* list tuple set: items; map record: <<key, value>> pairs flattened
 Rng(op, lo, hi) == [k |-> "rng", op |-> op, lo |-> lo, hi |-> hi]   \* lo/hi descriptor or Lit("none")
@@ -266,6 +270,8 @@ PickFloat == /\ v = Str(<<>>)
                      v' = FltSpecial(FloatSpecials[i], FloatSuffixes[s]) /\ Gen(v')
                 \/ \E nm \in {"nil", "true", "false"} : v' = Lit(nm) /\ Gen(v')
                 \/ \E i \in 1..Len(FixedMins) : v' = IntMin(FixedMins[i]) /\ Gen(v')
+                \/ \E i \in 1..Len(RegexSrcs) : \E f \in 1..Len(RegexFlags) :
+                     v' = Rgx(RegexSrcs[i], RegexFlags[f]) /\ Gen(v')
 PickRange == /\ v = Str(<<>>)
              /\ \E o \in 1..Len(RangeOps) : \E e \in 1..Len(RangeEnds) :
                   v' = Rng(RangeOps[o], RangeEnds[e][1], RangeEnds[e][2]) /\ Gen(v')
@@ -311,5 +317,5 @@ DenoteLaw == v.k = "int" /\ Len(v.ds) <= 7 =>
   /\ Denote(SelectSeq(v.ds, LAMBDA c : c # "_"), n.base) = n.value
   /\ n.value[1] # 0 \/ n.value = <<0>>
 
-TypeOK == v.k \in {"str", "sym", "chr", "int", "flt", "fsp", "imin", "lit", "coll", "rng"} /\ Depth(v) <= MaxDepth
+TypeOK == v.k \in {"str", "sym", "chr", "int", "flt", "fsp", "imin", "rgx", "lit", "coll", "rng"} /\ Depth(v) <= MaxDepth
 =============================================================================
